@@ -182,6 +182,17 @@ CHECKS["C12"] = (
     "DESIGN.md section 6, C12",
 )
 
+CHECKS["C02"] = (
+    "Hypothesis rule-based state machines over call histories per family + generated constructor/fit cases; snapshot and fresh-copy differential invariants",
+    "Stateful search: sequences of predict (spans from one day to a year, with/without usage, both flags, GHI-carrying data), serialise, "
+    "interleaved fits of other meters and writes into handed-out frames are generated and shrunk as one value; after every step the "
+    "model's JSON must equal its post-fit snapshot, each prediction must be bit-identical to that of a fresh deep copy of the post-fit "
+    "model, and every data object must be unchanged. Generated constructor and fit cases compare the caller's frames/series and the "
+    "data object's lists with deep copies taken before the call.",
+    "Trusted: frame_state/data_state fingerprints in vf/props/c02.py; hourly models use an explicit seed.",
+    "DESIGN.md section 6, C02",
+)
+
 PENDING_REASON = "check not built yet in this session (work in progress; property-based testing applies and is planned, see DESIGN.md section 6)"
 
 
